@@ -5,6 +5,7 @@
     refutation with a witness (known findings F-07a, F-07e). *)
 From Saml Require Import Base.Bytes Idp.FactTypes Gen.Facts Gen.Pure Idp.Sso Idp.Callback Idp.AttrQuery Idp.Logout Core.Attrs
   Proofs.SsoLiveness Proofs.LogoutProofs Codec.QueryEscape Codec.Base64.
+From Saml Require Import Xml.SchemaTypes Xml.Schema Gen.Schema Idp.BuilderTypes Idp.Builder Xml.Unmarshal Idp.AuthnOf.
 
 (** AuthnRequest: every condition met => persisted exactly once and sent to login *)
 Theorem C07_authn_accepts : forall e_form decode lookup verify_redirect verify_post instant_of now create want_signed sso_locs entity_id f a i s id,
@@ -84,9 +85,22 @@ Qed.
 Theorem C07_attrquery_signed_refuted : forall body, In "<"%char body -> b64_decode body = None.
 Proof. intros body H. apply (b64_decode_rejects body "<"%char H); [reflexivity|discriminate|discriminate]. Qed.
 
+(** the acceptance theorems above are stated on the decoded request; decoding itself (Unmarshal over the generated schema +
+    projection, checked against the handler's decoder on every request of the conformance generator) is live on the canonical
+    serialisation, whatever prefixes the document uses and whatever the values are *)
+Theorem C07_canonical_document_decodes : forall id ver instant dest binding issuer,
+  let p := b "urn:oasis:names:tc:SAML:2.0:protocol" in let a := b "urn:oasis:names:tc:SAML:2.0:assertion" in
+  authn_of_doc false (RElem p (b "AuthnRequest")
+     [(b "xmlns", b "samlp", p); (b "xmlns", b "saml", a); ([], b "ID", id); ([], b "Version", ver); ([], b "IssueInstant", instant);
+      ([], b "Destination", dest); ([], b "ProtocolBinding", binding)]
+     [RElem a (b "Issuer") [] [RText issuer]])
+  = Some {| a_id := id; a_version := ver; a_destination := dest; a_binding := binding; a_issuer := Some issuer; a_conditions := None; a_signature := None |}.
+Proof. exact canonical_document_decodes. Qed.
+
 Print Assumptions C07_authn_accepts.
 Print Assumptions C07_logout_accepts.
 Print Assumptions C07_attrquery_accepts.
 Print Assumptions C07_redirect_octets_canonical.
 Print Assumptions C07_redirect_octets_refuted.
 Print Assumptions C07_attrquery_signed_refuted.
+Print Assumptions C07_canonical_document_decodes.
